@@ -98,10 +98,10 @@ def run_property(pid, tier, seed=0):
     for (u, m) in all_units:
         for d in P.unit_digits(u, digits):
             jobs.append((u, d, m, False))
-    # vacuity canaries: own units, u64 (quick) / all digits (thorough)
+    # vacuity canaries: own units, every digit type of the tier (a canary must fire for at least one of them)
     for u in own_units:
         for m in P.unit_modes(u):
-            for d in (P.unit_digits(u, digits) if u in P.PAIR_UNITS else ['u64'] if tier == 'quick' else digits):
+            for d in P.unit_digits(u, digits):
                 jobs.append((u, d, m, True))
     results = RUN.verify_many(jobs, workers=int(os.environ.get('BNV_WORKERS', '7')))
     baseline = set(load_json(BASELINE, {}).get('proved', []))
@@ -116,6 +116,8 @@ def run_property(pid, tier, seed=0):
     samples = []
     canary_total = 0
     canary_fired = 0
+    canary_union = {}
+    from .cex import generic_key as CEXK
     assumed_contracts = set()
     always_assumed = set()
     for res in results:
@@ -126,10 +128,18 @@ def run_property(pid, tier, seed=0):
             for it in res['items']:
                 if it['kind'] == 'proof':
                     continue
-                canary_total += it['n_canaries']
-                canary_fired += min(it['n_canaries'], it['canaries_fired'] or 0)
-                if (it['canaries_fired'] or 0) < it['n_canaries'] and res['ran_verification']:
-                    undecided.append(f"vacuity: canary in {tag}/{it['key']} did not fire ({it['canaries_fired']}/{it['n_canaries']})")
+                # a canary must fire for at least one digit type: a branch that is statically dead for one digit
+                # width (e.g. `if Digit::BITS > u8::BITS`) is reachable for another, whereas a contradictory
+                # `requires`/invariant is unreachable for all of them.  The function-top canary (id 0) must fire always.
+                ck = (res['unit'], res['mode'], CEXK(it['key']))
+                ent = canary_union.setdefault(ck, dict(n=it['n_canaries'], ids=set(), top_missing=[], ran=False))
+                ent['n'] = max(ent['n'], it['n_canaries'])
+                if res['ran_verification']:
+                    ent['ran'] = True
+                    ids = set(it.get('canary_ids') or [])
+                    ent['ids'] |= ids
+                    if it['n_canaries'] and 0 not in ids:
+                        ent['top_missing'].append(res['digit'])
             continue
         for pb in res['problems']:
             undecided.append(f"{pb['kind']} {tag}/{pb['key']}: {pb['detail']}")
@@ -161,6 +171,16 @@ def run_property(pid, tier, seed=0):
             assumed_contracts.add(s)
         for s in res.get('assumed', []):
             always_assumed.add(s)
+    for (cu, cm, ckey), ent in sorted(canary_union.items()):
+        if not ent['ran']:
+            continue
+        canary_total += ent['n']
+        canary_fired += len([i for i in ent['ids'] if i < ent['n']])
+        if ent['top_missing']:
+            undecided.append(f"vacuity: the precondition canary of {cu}/{cm}/{ckey} did not fire for {ent['top_missing']}")
+        missing = [i for i in range(ent['n']) if i not in ent['ids']]
+        if missing:
+            undecided.append(f"vacuity: canaries {missing} of {cu}/{cm}/{ckey} did not fire for any digit type in this run")
     # contracts used as stubs whose home unit was verified in this run are proved, not assumed
     proved_here = {f['fn'] for f in functions if f['status'] == 'proved'}
     assumed = sorted({s for s in assumed_contracts if s not in proved_here} | always_assumed)
